@@ -10,7 +10,7 @@ import core
 import vproc
 
 SEQ = [("fresh", "none"), ("dironly", "none"), ("upgrade", "none"), ("ready", "none"), ("ready", "reset"),
-       ("ready", "set"), ("ready", "resetsub"), ("ready", "merge"), ("upgrade", "set"), ("fresh", "reset")]
+       ("ready", "set"), ("ready", "resetsub"), ("ready", "merge"), ("upgrade", "set"), ("fresh", "reset"), ("ready", "resetcli")]
 
 
 def crash_run(scenario, op, k, second_crash=None):
